@@ -100,12 +100,28 @@ def check(chk, repo, tier):
                         for kw in n.keywords)
                     ok = callee in EXACT or (callee in EXACT_IF_RATIONAL
                                              and rational)
-                    if not ok and callee in EXACT_ON_INTEGERS and \
-                            integer_only_path(tmod, line):
-                        # digits only: sympify of an integer string is exact
+                    cons = f"transpile_token/NUMBER:{callee}"
+                    wit = ("0.333333333333333 pushes 1/3; "
+                           "1.41421356237 pushes sqrt(2); "
+                           "2.718281828459045 pushes E")
+                    int_path = callee in EXACT_ON_INTEGERS and \
+                        integer_only_path(tmod, line)
+                    if not ok and int_path and rational:
+                        # digits only + rational=True: read as Integer
                         ok = True
                     why = ""
-                    if callee in EXACT_ON_INTEGERS and not ok:
+                    if int_path and not ok:
+                        # nsimplify("<digits>") first tries a small-coefficient
+                        # fraction (pslq, coefficients <= 1000) and otherwise
+                        # *guesses a closed form* with mpmath.identify
+                        cons += "(integer literal)"
+                        why = (f"{callee}(\"<digits>\") without rational=True "
+                               "replaces integers its small-fraction search "
+                               "cannot express by a closed-form guess")
+                        wit = ("1093 pushes 791015625*2**(13/15)*3**(7/9)*"
+                               "5**(7/90)*7**(29/30)/23059204 (392 of the "
+                               "integers below 30000 are affected)")
+                    elif callee in EXACT_ON_INTEGERS and not ok:
                         why = (f"{callee}(\"<digits>\") "
                                + ("even with rational=True " if rational
                                   else "without rational=True ")
@@ -113,12 +129,8 @@ def check(chk, repo, tier):
                                "looks for a closed form (mpmath.identify)")
                     elif not ok:
                         why = f"{callee} is not an exact number constructor"
-                    chk.ob("C05.exact-constructor",
-                           f"transpile_token/NUMBER:{callee}", ok, why, TF,
-                           line,
-                           witness="0.333333333333333 pushes 1/3; "
-                                   "1.41421356237 pushes sqrt(2); "
-                                   "2.718281828459045 pushes E",
+                    chk.ob("C05.exact-constructor", cons, ok, why, TF,
+                           line, witness=wit,
                            sample={"template": text.strip()})
                 elif isinstance(n, ast.Constant) and isinstance(
                         n.value, float):
